@@ -233,6 +233,74 @@ if k == 2:
                    bounds=f"valid document of {name} accepted and stable; version := symbolic int; type := symbolic str len<=5")
 
 
+def produced(name, expr, timeout=40):
+    """"every document produced by toJson is accepted": states beyond the two-record fill (empty, zero(), scaled by 0, merged,
+    filled with NaN / inf quantities and zero weights), by selector; body untraced"""
+    body = """
+k = sel(k, 0, 1, 2, 3, 4, 5, 6, 7)
+with NT():
+    h = MK()
+    special = [(NAN, INF, "a", 1.0), (-INF, NAN, "", 0.0), (0.5, 1.5, "b", 2.5)]
+    if k in (1, 3, 4, 5, 6): [h.fill(d) for d in RECS]
+    if k in (2, 6, 7): [h.fill(d, w) for d, w in zip(special, (1.0, 2.5, 0.0))]
+    if k == 3: h = h.zero()
+    if k == 4: h = h * 0.0
+    if k == 5: h = (h + h) * 2.5
+    if k == 7: h = h + MK()
+    res = ""
+    try:
+        doc = h.toJson()
+        r = Factory.fromJson(doc)
+        if not jsame(r.toJson(), h.toJson()): res = "produced-document-changed-by-reload"
+        r2 = Factory.fromJsonString(h.toJsonString())
+        if not jsame(r2.toJson(), h.toJson()): res = res or "produced-string-document-changed-by-reload"
+    except Exception as e:
+        res = "produced-document-rejected:" + type(e).__name__
+if res: return res
+"""
+    return Harness(f"C15/produced/{name}", [("k", "int")], "0 <= k <= 7", body, timeout=timeout, setup=C15_SETUP + f"MK = lambda: {expr}\n", tree=expr,
+                   bounds="state by selector: fresh | 2 records | NaN/inf records with a zero weight | zero() | *0.0 | (h+h)*2.5 | both fills | + empty; toJson and toJsonString, reload must re-serialise identically")
+
+
+BUILT = [
+    ("Stack.build(Count,Count)", "H.Stack.build(_filled(H.Count()), _filled(H.Count()), H.Count())"),
+    ("Stack.build(Bin,Bin)", "H.Stack.build(_filled(H.Bin(2, 0.0, 2.0, nx)), _filled(H.Bin(2, 0.0, 2.0, nx)))"),
+    ("Stack.build+Stack.build", "H.Stack.build(_filled(H.Sum(nx)), H.Sum(nx))"),
+    ("Fraction.build(Bin,Bin)", "H.Fraction.build(_filled(H.Bin(2, 0.0, 2.0, nx)), _filled(H.Bin(2, 0.0, 2.0, nx)))"),
+    ("Fraction.build(Count,Count)", "H.Fraction.build(H.Count(), _filled(H.Count()))"),
+    ("Label(ed)", "H.Label.ed(2.0, {'a': H.Count.ed(1.0), 'b': H.Count.ed(0.0)})"),
+    ("Bin.ed(inf)", "H.Bin.ed(-INF, INF, 1.0, [H.Count.ed(1.0)], H.Count.ed(0.0), H.Count.ed(0.0), H.Count.ed(0.0))"),
+    ("Minimize.ed(nan)", "H.Minimize.ed(0.0, NAN)"),
+    ("Bag.ed(nan-key)", "H.Bag.ed(1.0, {'nan': 1.0}, 'N')"),
+    ("toImmutable", "_filled(H.Select(nx, H.Bin(2, 0.0, 2.0, ny))).toImmutable()"),
+]
+
+
+def produced_built(timeout=40):
+    body = """
+k = sel(k, %s)
+with NT():
+    def _filled(h):
+        for d in RECS: h.fill(d)
+        return h
+    MKS = [%s]
+    res = ""
+    try:
+        h = MKS[k]()
+        doc = h.toJson()
+        r = Factory.fromJson(doc)
+        if not jsame(r.toJson(), doc): res = "produced-document-changed-by-reload:" + NAMES[k]
+        r2 = Factory.fromJsonString(h.toJsonString())
+        if not jsame(r2.toJson(), doc): res = res or "produced-string-document-changed-by-reload:" + NAMES[k]
+    except Exception as e:
+        res = "produced-document-rejected:%%s:%%s" %% (NAMES[k], type(e).__name__)
+if res: return res
+""" % (", ".join(str(i) for i in range(len(BUILT))), ", ".join("lambda: " + e for _, e in BUILT))
+    return Harness("C15/produced/built-and-immutable", [("k", "int")], f"0 <= k <= {len(BUILT) - 1}", body, timeout=timeout,
+                   setup=C15_SETUP + "MK = None\nNAMES = %r\n" % [n for n, _ in BUILT], tree="; ".join(n for n, _ in BUILT),
+                   bounds="documents of aggregators made by the public build()/ed()/toImmutable() constructors (by selector); reload must re-serialise identically")
+
+
 def _allmk():
     return "ALLMK = [" + ", ".join("(lambda: %s)" % named_expr(t) for t in cat.unit()) + "]\n"
 
@@ -241,8 +309,10 @@ def harnesses(tier):
     global C15_SETUP
     if "ALLMK = [" not in C15_SETUP:
         C15_SETUP = C15_SETUP + _allmk()
-    out = []
+    out = [produced_built()]
     chunk = 3 if tier == "quick" else 2
+    for t in cat.unit() + cat.extra_unit() + (cat.deep() if tier == "thorough" else cat.deep()[:4]):
+        out.append(produced(t.name, named_expr(t)))
     for t in cat.unit():
         expr = named_expr(t)
         doc, paths, dicts = doc_paths(expr)
